@@ -191,11 +191,15 @@ class _Quadrature(torch.autograd.Function):
                 # are still the same objects as the objects outside
                 with torch.enable_grad():
                     f = fcn(x, *params)
+                if not f.requires_grad:
+                    return tuple(torch.zeros_like(p) for p in tensor_params)
                 dfdts = torch.autograd.grad(f, tensor_params,
                                             grad_outputs=grad_ys,
                                             retain_graph=True,
-                                            create_graph=torch.is_grad_enabled())
-                return dfdts
+                                            create_graph=torch.is_grad_enabled(),
+                                            allow_unused=True)
+                return tuple(torch.zeros_like(p) if dfdt is None else dfdt
+                             for (dfdt, p) in zip(dfdts, tensor_params))
 
             # reconstruct grad_params
             # listing tensor_params in the params of quad to make sure it gets
